@@ -141,8 +141,14 @@ template <class K> static void run_c13(Ctx &ctx, EngCfg g, int steps) {
         ctx.cls("self-assignment");
         Watch<K> w; w.take(A);
         std::vector<bool> findable; for (auto &p : A.props) findable.push_back(!p->name.empty() && p->findable_in(A.mesh));
-        ctx.op("mesh = mesh (self)");
-        auto &self = A.mesh; A.mesh = self;
+        // self-assignment of the whole mesh, or through a reference to one of its base classes (kernel / topology kernel)
+        int via = (int)ctx.rng.below(3);
+        ctx.op(via == 0 ? "mesh = mesh (self)" : via == 1 ? "(Kernel&)mesh = (Kernel&)mesh (self, through the kernel base)" : "(TopologyKernel&)mesh = (TopologyKernel&)mesh (self, through the topology base)");
+        ctx.cls("self-assignment:via" + std::to_string(via));
+        auto &self = A.mesh;
+        if (via == 0) A.mesh = self;
+        else if (via == 1) { K &kb = A.mesh; const K &ks = self; kb = ks; }
+        else { ovm::TopologyKernel &tb = A.mesh; const ovm::TopologyKernel &ts = self; tb = ts; }
         w.expect_same(A, "the mesh", "self-assignment");
         for (size_t i = 0; i < A.props.size(); ++i) {
             VF_CHECK(A.props[i]->attached(), "oracle:self-assign.detached", A.props[i]->label);
